@@ -14,6 +14,7 @@ var units = map[string]common.UnitFunc{
 	"c09":       unitC09,
 	"c11crypto": unitC11crypto,
 	"c11orch":   unitC11orch,
+	"c11sign":   unitC11sign,
 	"c08":       unitC08,
 	"c18deal":   unitC18deal,
 	"c18dkg":    unitC18dkg,
